@@ -826,8 +826,13 @@ class Adapter(object):
                 Adapter.focus = {'changed': [], 'focus': [], 'error': str(e)[:200]}
         import kneeliverse.metrics as metrics
         a = np.array([[0.0, 1.0], [1.0, 3.0], [2.0, 2.0]])
-        metrics.residuals(a[:, 1], a[:, 0] * 2.0)
-        metrics.residuals(a[:, 1].copy(), a[:, 0] * 2.0)
+        comp = getattr(metrics.residuals, '_compile_for_args', None)     # compile, do not execute
+        if comp is not None:
+            for yy in (a[:, 1], a[:, 1].copy(), a.astype(np.int64)[:, 1]):
+                try:
+                    comp(yy, a[:, 0] * 2.0)
+                except Exception:
+                    pass
         import gc
         gc.collect()
         gc.freeze()
